@@ -68,6 +68,18 @@ pub assume_specification<T: PartialEq> [<[T]>::contains] (s: &[T], x: &T) -> (r:
 // Weekdays has a hand-written Ord (iterator adapters): assumed total order (only used as a BTreeMap key component)
 impl Ord for Weekdays { #[verifier::external_body] fn cmp(&self, other: &Self) -> Ordering { unimplemented!() } }
 impl PartialOrd for Weekdays { #[verifier::external_body] fn partial_cmp(&self, other: &Self) -> Option<Ordering> { unimplemented!() } }
+// the REAL text of that comparison is extracted too (as an inherent method, R7), with its iterator-adapter body outlined: nothing is proved
+// about it (assumed: lexicographic comparison of the day numbers, a total order), but any change to it loses the outline anchor and the
+// unit is then rejected (undecided) instead of silently keeping the assumption
+pub uninterp spec fn wd_cmp(a: Weekdays, b: Weekdays) -> Ordering;
+#[verifier::external_body]
+pub fn outl_weekdays_cmp(a: &Weekdays, b: &Weekdays) -> (r: Ordering) ensures r == wd_cmp(*a, *b)
+{ /* verbatim: let self_num = self.0.iter().map(|weekday| weekday.num_days_from_monday()); let other_num = other.0.iter().map(|weekday| weekday.num_days_from_monday()); self_num.cmp(other_num) */ unimplemented!() }
+impl Weekdays {
+    //@@ fn src/router/route_weekday.rs :: impl Ord for Weekdays / fn cmp -> r
+    //@| ensures r == wd_cmp(*self, *other),
+    //@| outline `let self_num = self.0.iter().map(|weekday| weekday.num_days_from_monday()); let other_num = other.0.iter().map(|weekday| weekday.num_days_from_monday()); self_num.cmp(other_num)` => `outl_weekdays_cmp(self, other)`
+}
 
 // a window [start, end) with open sides: start inclusive, end exclusive
 pub open spec fn in_window(start: Option<int>, end: Option<int>, t: int) -> bool {
@@ -1781,6 +1793,31 @@ pub proof fn c17_final_priority<T>(a: Multiset<RouteRef<T>>, b: Multiset<RouteRe
     }
 }
 
+// ---- PINS: functions of /repo this unit (or the property it serves) only ASSUMES something about — a hand-written shim stands for them, or nothing at
+// all does. The assumption was made for one text of each; the token hash ties it to that text: a change makes the unit UNDECIDED (exit 2), never OK.
+//@@ pin src/api/rule.rs :: impl Rule / fn host = c926279d19dc
+//@@ pin src/api/rule.rs :: impl Rule / fn headers = 1bd7b00498d7
+//@@ pin src/api/rule.rs :: impl Rule / fn route_ips = 44605eb0387f
+//@@ pin src/api/rule.rs :: impl Rule / fn route_datetimes = 8f74f6a0ed1e
+//@@ pin src/api/rule.rs :: impl Rule / fn route_times = 9deef8295659
+//@@ pin src/api/rule.rs :: impl Rule / fn route_weekdays = 192d9911f67c
+//@@ pin src/api/rule.rs :: impl IntoRoute<Rule> for Rule / fn into_route = e1ce132a1d40
+//@@ pin src/api/rule.rs :: impl Rule / fn markers = 687147d914f8
+//@@ pin src/router/route_weekday.rs :: impl RouteWeekday / fn from_weekdays = 5d14dab539ab
+//@@ pin src/router/route_time.rs :: impl RouteTime / fn from_range = a7be826974ad
+//@@ pin src/router/route_datetime.rs :: impl RouteDateTime / fn from_range = cdfe11394e52
+//@@ pin src/router/route.rs :: impl <T>Route<T> / fn new = 38b84d5467d9
+//@@ pin src/router/route.rs :: impl <T>Route<T> / fn id = 66496e056742
+//@@ pin src/router/route.rs :: impl <T>Route<T> / fn scheme = 200b96462952
+//@@ pin src/router/route.rs :: impl <T>Route<T> / fn methods = 9f63390359e4
+//@@ pin src/router/route.rs :: impl <T>Route<T> / fn exclude_methods = 671e7a21be92
+//@@ pin src/router/route.rs :: impl <T>Route<T> / fn ips = abc3aacd1e3a
+//@@ pin src/router/route.rs :: impl <T>Route<T> / fn datetime = 6c9e63a5a92d
+//@@ pin src/router/route.rs :: impl <T>Route<T> / fn time = 94efb2e045be
+//@@ pin src/router/route.rs :: impl <T>Route<T> / fn weekdays = a5c8434edcfd
+//@@ pin src/router/route.rs :: impl <T>Route<T> / fn priority = 6f5c73bccdea
+//@@ pin src/router/route.rs :: impl <T>Route<T> / fn handler = 695ffb496be5
+//@@ pin src/router/route.rs :: impl <T>Route<T> / fn compile = 3c319b749f2d
 //@@ strlits
 } // verus!
 fn main() {}
